@@ -289,7 +289,7 @@ def run_path(events, returns_node, local, float_check, final=None):
             cs[ev[1]] = dict(kind={'alloc': 'array', 'cnew': 'pyobj', 'cparam': 'param'}[t],
                              size=ev[3] if t == 'alloc' else '', owned=[], borrowed=[],
                              may_hold=False, released=False, ever_released=False, freed=False,
-                             filling=False, filled=False)
+                             filling=False, filled=False, nulled=False)
         elif t == 'store':
             q, n = cs.get(ev[1]), st.get(ev[2])
             if q is None:
@@ -330,7 +330,16 @@ def run_path(events, returns_node, local, float_check, final=None):
             if ev[2] in local and q['kind'] != 'param':
                 q['may_hold'] = True
                 q['released'] = False
-        elif t == 'derefAll':
+        elif t == 'nullInit':
+            q = cs.get(ev[1])
+            if q is None:
+                return (k, 'the slots of an untracked array are initialised')
+            if q['kind'] != 'array' or q['size'] != ev[2]:
+                return (k, 'the loop that initialises the slots does not run over the allocated size')
+            if q['owned'] or q['borrowed'] or q['may_hold'] or q['freed']:
+                return (k, 'the slots of an array are overwritten with NULL after something was stored')
+            q['nulled'] = True
+        elif t in ('derefAll', 'derefNonNull'):
             q = cs.get(ev[1])
             if ev[2] not in DEREFS:
                 return (k, f'not a dereference function: {ev[2]}')
@@ -344,7 +353,8 @@ def run_path(events, returns_node, local, float_check, final=None):
                 return (k, 'the references of the container were already given back')
             if q['kind'] == 'array' and q['size'] != ev[3]:
                 return (k, 'the loop that gives the references back does not run over the allocated size')
-            if q['kind'] == 'array' and (q['filling'] or not q['filled']):
+            if q['kind'] == 'array' and (q['filling'] or not q['filled']) \
+                    and not (t == 'derefNonNull' and q['nulled']):
                 return (k, 'every slot of an array is dereferenced, but the loop that fills it was not '
                            'completed (or there is none)')
             for y in q['owned']:
@@ -479,7 +489,7 @@ def known_exception_leaks():
     return out
 
 CONT_EVENTS = ('alloc', 'cnew', 'cparam', 'store', 'load', 'passC', 'derefAll', 'free', 'refNonPos',
-               'setField')
+               'setField', 'fillBegin', 'fillEnd', 'handleDrop', 'nullInit', 'derefNonNull')
 
 
 def _count(events, kinds):
@@ -850,9 +860,11 @@ def check_C19(ctx):
                                                       site=site, line=line, still_owned=held, reach=reach))
                             if reach is None or reach == 'userError':
                                 what = (f'{tag} {m["name"]} (line {m["line"]}): an exception raised at `{site}` '
-                                        f'(line {line}) leaves the function while it still owns '
-                                        + (', '.join(f'{k} reference(s) on the result of `{d}`' if k else d
-                                                     for d, k in held) if held is not None else bad[1]))
+                                        f'(line {line}) leaves the function '
+                                        + ('while it still owns ' + ', '.join(
+                                            f'{k} reference(s) on `{d}`' if k else d for d, k in held)
+                                           if held is not None else
+                                           f'through a `finally` / `except` block that is refused: {bad[1]}'))
                                 ctx.violation(
                                     what,
                                     dict(backend=tag, method=m['name'], line=line, site=site,
